@@ -28,7 +28,9 @@ HASHVARS = {"h1": "I", "h2": "q"}
 
 
 # statements that belong to C09's program side only (C04's frame programs skip them)
-C09_ONLY = ("c = c + h1 (hash read while r0 is in use)", "lookup: h2 = h1; v2 += 1")
+# statements added for C09's program side (C04's frame programs run them too)
+C09_PROGRAMS = ("c = c + h1 (hash read while r0 is in use)", "lookup: h2 = h1; v2 += 1")
+C09_ONLY = ()
 
 
 def statements():
@@ -87,6 +89,13 @@ def statements():
             p.h2 = p.h1
             value.v2 = value.v2 + 1
 
+    def s_lookup_member(p):
+        # a hash variable read while r0 is the pointer to the looked-up entry
+        p.table.key.k1 = 5
+        p.table.key.k2 = 7
+        with p.table.lookup() as (value, Else):
+            value.v1 = p.h1 + 5
+
     def s_dict_update(p):
         p.table.key.k1 = 5
         p.table.key.k2 = 7
@@ -112,6 +121,7 @@ def statements():
             "h2 = h2 + 5 (aligned frame)": ("h2", s_aligned_2),
             "c = c + h1 (hash read while r0 is in use)": ("c", s_hash_operand),
             "lookup: h2 = h1; v2 += 1": ("h2", s_lookup_copy),
+            "lookup: v1 = h1 + 5 (entry member from a hash variable)": (None, s_lookup_member),
             "table[5,7] = (d, 9) (Dict update)": (None, s_dict_update),
             "c = table[5,7].v2 (Dict lookup)": ("c", s_dict_lookup)}
 
